@@ -67,6 +67,9 @@ struct Ctx {
     bool stopped_ = false;
     std::string phase_ = "";
     long phase_first = 0, phase_exec = 0;
+    struct PhaseInfo { long first, cases, executed; bool complete; };
+    std::vector<std::pair<std::string, PhaseInfo>> phases_done;
+    double last_ckpt = 0;
     std::map<std::string, long> cnt;
     std::map<std::string, std::set<std::string>> classes;
     std::map<std::string, int> samples_per_phase;
@@ -115,8 +118,7 @@ struct Ctx {
     }
     void end_phase() {
         if (phase_.empty()) return;
-        fprintf(out, "{\"t\":\"phase\",\"name\":\"%s\",\"first\":%ld,\"cases\":%ld,\"executed\":%ld,\"complete\":%s}\n",
-                jesc(phase_).c_str(), phase_first, idx + 1 - phase_first, phase_exec, stopped_ ? "false" : "true");
+        phases_done.push_back({phase_, PhaseInfo{phase_first, idx + 1 - phase_first, phase_exec, !stopped_}});
         phase_.clear();
     }
     bool stopped() {
@@ -139,11 +141,17 @@ struct Ctx {
         if (!mine) return false;
         prog->cur = idx;
         executed++; phase_exec++;
+        if ((executed & 255) == 0 && only < 0) {
+            struct timeval tv; gettimeofday(&tv, nullptr); double now = tv.tv_sec + tv.tv_usec * 1e-6;
+            if (now - last_ckpt > 1.0) { last_ckpt = now; write_stat(false); }
+        }
         alarm(case_limit_s);
         return true;
     }
     void done_case() { alarm(0); }
 
+    // when replaying a single case, say what it is before executing it (so that a hang or crash is still described)
+    void announce(const std::string &desc) { if (only >= 0) { fprintf(out, "{\"t\":\"case\",\"case\":%ld,\"desc\":\"%s\"}\n", idx, jesc(desc).c_str()); fflush(out); } }
     void count(const std::string &k, long n = 1) { cnt[k] += n; }
     void cls(const std::string &group, const std::string &v) { auto &s = classes[group]; if (s.size() < 400) s.insert(v); }
     void sample(const std::string &desc, int per_phase = 2) {
@@ -164,11 +172,11 @@ struct Ctx {
                 jesc(phase_).c_str(), idx, jesc(clause).c_str(), cl.c_str(), jesc(desc).c_str(), jesc(observed).c_str());
         fflush(out);
     }
-    int finish() {
-        alarm(0);
-        end_phase();
-        fprintf(out, "{\"t\":\"stat\",\"executed\":%ld,\"enumerated\":%ld,\"stopped\":%s,\"cnt\":{", executed, idx + 1,
-                (stopped_ && only < 0) ? "true" : "false");
+    // cumulative state of THIS process; the merger keeps the last line per pid, so a crashed process still
+    // contributes everything up to its last checkpoint
+    void write_stat(bool final) {
+        fprintf(out, "{\"t\":\"stat\",\"pid\":%d,\"final\":%s,\"executed\":%ld,\"enumerated\":%ld,\"stopped\":%s,\"cnt\":{", (int)getpid(), final ? "true" : "false",
+                executed, idx + 1, (stopped_ && only < 0) ? "true" : "false");
         bool first = true;
         for (auto &kv : cnt) { fprintf(out, "%s\"%s\":%ld", first ? "" : ",", jesc(kv.first).c_str(), kv.second); first = false; }
         fprintf(out, "},\"classes\":{");
@@ -179,8 +187,20 @@ struct Ctx {
             for (auto &v : kv.second) { fprintf(out, "%s\"%s\"", f2 ? "" : ",", jesc(v).c_str()); f2 = false; }
             fprintf(out, "]");
         }
-        fprintf(out, "}}\n");
+        fprintf(out, "},\"phases\":[");
+        first = true;
+        auto emit = [&](const std::string &n, const PhaseInfo &p) {
+            fprintf(out, "%s{\"name\":\"%s\",\"first\":%ld,\"cases\":%ld,\"executed\":%ld,\"complete\":%s}", first ? "" : ",", jesc(n).c_str(), p.first, p.cases, p.executed, p.complete ? "true" : "false");
+            first = false; };
+        for (auto &p : phases_done) emit(p.first, p.second);
+        if (!phase_.empty()) emit(phase_, PhaseInfo{phase_first, idx + 1 - phase_first, phase_exec, false});
+        fprintf(out, "]}\n");
         fflush(out);
+    }
+    int finish() {
+        alarm(0);
+        end_phase();
+        write_stat(true);
         if (out != stdout) fclose(out);
         prog->cur = -2;
         return 0;
